@@ -255,31 +255,46 @@ def ob_state_bounded(steps: List[int], n1: int, n2: int) -> str:
     return "ok" if len(steps) > bound else "ok-trivial"
 
 
-@obligation(funcs=["rate_limiter.RateLimiter.cleanup"],
-            timeout=(90, 600),
-            bounds="<=3 arrivals from A/B then cleanup at a later symbolic time; ip rule (1,n)")
-def ob_cleanup(steps: List[int], addrs: List[bool], later: int, n: int) -> str:
+@obligation(funcs=["rate_limiter.RateLimiter.cleanup", "rate_limiter.RateLimiter.is_limited"],
+            timeout=(200, 900),
+            bounds="<=4 arrivals from A (steps 0..70) with cleanup() (some client disconnects) invoked after a symbolic one of "
+                   "them, following a symbolic delay 0..70; ip rule (60,n), n in 1..2.  Every decision must be the one the "
+                   "admitted history dictates (cleanup may only forget what no rule can count), and an address idle for "
+                   "longer than the interval must be forgotten")
+def ob_cleanup(steps: List[int], cpos: int, later: int, n: int, b_first: bool) -> str:
     """
-    pre: 1 <= len(steps) <= 3 and len(addrs) == len(steps)
-    pre: all(0 <= s <= 3 for s in steps)
-    pre: 0 <= later <= 5 and 1 <= n <= 2
+    pre: 1 <= len(steps) <= 4 and 0 <= cpos < len(steps)
+    pre: all(0 <= s <= 70 for s in steps)
+    pre: 0 <= later <= 70 and 1 <= n <= 2
     post: _.startswith("ok")
     """
     logging.disable(logging.CRITICAL)
-    rl = RL({"ip": {"EVENT": [(1, n)]}})
-    log = _drive(rl, steps, addrs, [True] * len(steps))
-    rl.now += later
-    before = {k: [list(d) for d in v.values()] for k, v in rl.recent_commands.items()}
-    rl.cleanup()
-    # cleanup may only drop state that can no longer influence a decision: timestamps older than the interval
-    for k, lists in before.items():
-        live = [ts for l in lists for ts in l if (rl.now - ts) < 1]
-        kept = k in rl.recent_commands and [ts for d in rl.recent_commands[k].values() for ts in d]
-        if live and not kept:
-            return "cleanup dropped live timestamps %r of %r at now=%d" % (live, k, rl.now)
-        if not live and (rl.now - max(ts for l in lists for ts in l)) > 1 and k in rl.recent_commands:
-            return "cleanup kept idle state for %r" % (k,)
-    return "ok"
+    from ipaddress import ip_address
+    rl = RL({"ip": {"EVENT": [(60, n)]}})
+    t = 0
+    admitted = []
+    nontrivial = False
+    if b_first:
+        rl.is_limited(B, ["EVENT"])  # B speaks once at t=0 and then stays idle
+    for i in range(len(steps)):
+        t += steps[i]
+        rl.now = t
+        limited = rl.is_limited(A, ["EVENT"])
+        want = _count_window(admitted, t, 60) >= n
+        if limited != want:
+            return "arrival %d at t=%d was %s, admitted history %r (n=%d/60) says %s (cleanup after arrival %d)" % (
+                i, t, "refused" if limited else "admitted", admitted, n, "refuse" if want else "admit", cpos)
+        if not limited:
+            admitted.append(t)
+        if i == cpos:
+            t += later
+            rl.now = t
+            rl.cleanup()
+            if b_first and t > 60 and ip_address(B).packed in rl.recent_commands:
+                return "cleanup at t=%d kept the state of an address idle since t=0" % t
+            if i + 1 < len(steps):
+                nontrivial = True
+    return "ok" if nontrivial else "ok-trivial"
 
 
 _SPELL = (("s", 1), ("sec", 1), ("second", 1), ("m", 60), ("min", 60), ("minute", 60), ("h", 3600), ("hr", 3600),
